@@ -24,16 +24,18 @@ class Prop(PoolProp):
             cfg.item_fault = [(rng.randrange(cfg.n_workers), rng.randint(0, 2))]
         if cfg.begin_fault or cfg.item_fault:
             cfg.fault_exc = rng.choice(["RuntimeError", "RuntimeError", "SystemExit", "KeyboardInterrupt"])
-        elif tier == "search" and cfg.factory and rng.random() < 0.7:
-            # beyond the model's caller program (judged by the oracle only): until_all_ready() in the middle of a call,
-            # while the replace thread may be exchanging workers
+        elif rng.random() < (0.7 if tier == "search" and cfg.factory else 0.2):
+            # until_all_ready() in the middle of every call, while the replace thread may be exchanging workers (modelled:
+            # Cfg.readyMid; theorems ready_mid_after_begin / ready_mid_listed)
             cfg.ready_mid = True
         return cfg
 
     def cover_cfgs(self, tier):
         # lifecycle with faults: begin() of the worker raises / the functor raises at the first chunk; until_all_ready
         cfgs = [Cfg(n_workers=1, wait_ready=True, calls=[(1, 1, True)]),
-                Cfg(n_workers=2, calls=[(1, 1, False)], item_fault=[(0, 0)])]
+                Cfg(n_workers=2, calls=[(1, 1, False)], item_fault=[(0, 0)]),
+                # until_all_ready() in the middle of a call of a factory pool whose worker retires at once
+                Cfg(n_workers=1, factory=True, quota=1, calls=[(2, 1, True)], ready_mid=True)]
         if tier == "thorough":
             cfgs += [Cfg(n_workers=2, factory=True, quota=1, wait_ready=True, calls=[(2, 1, True)]),
                      Cfg(n_workers=2, calls=[(2, 1, True)], begin_fault=[1])]
